@@ -3,5 +3,8 @@ HOOK_COMMITS = []
 CLAIMS = {
  'C01': dict(text='bounded proof by symbolic execution: for every enumerated message shape (class, version, modulation/length, NOPE, legacy) the real gen_msg->parse_msg code is executed on fully symbolic field values and burst bits; z3 shows each decoded field/bit equals the original for all values. Tests sample one random message per shape; this covers the whole value space.',
              note='trusted: z3, the builtin models of vf/pysym.py (struct, bytearray, array, translate; conformance-tested in setup), the AST instrumentation; shapes outside versions 0/1 are rejected by validate() and are outside the claim'),
+
+ 'C13': dict(text='bounded proof by symbolic execution: validate(), gen_msg() and DATAInterface.send_msg() run on messages whose numeric fields are unconstrained symbolic integers (|x| <= 2^40), symbolic version and symbolic burst length; on every path z3 shows "raised ValueError <=> some field outside the protocol range table" and that no other exception type can escape, and that a datagram is emitted iff the table holds. Boundary values (e.g. FN 2715648) that random tests hit with probability 1e-6 are covered by construction.',
+             note='trusted: z3, pysym models, the range table transcribed from the property statement in vf/checks/c13.py; field values that are not int/None are outside the claim'),
 }
 NOT_APPLICABLE = {}
